@@ -503,6 +503,28 @@ ProgBoom == <<[a |-> "var", v |-> I(0)], [a |-> "map", f |-> "id", in |-> 1, eff
 ProgXArm == <<[a |-> "var", v |-> I(0)], [a |-> "map", f |-> "inc", in |-> 1, eff |-> <<>>],
               [a |-> "xcell", in |-> 1], [a |-> "map2", f |-> "add", in |-> <<3, 1>>]>>
 
+\* depend_on below a dependant, its input kept needed by another observer while the depend_on subtree
+\* is unobserved and re-observed (its cutoff compares change stamps, not values)
+ProgDepCut == <<[a |-> "var", v |-> I(0)], [a |-> "map", f |-> "inc", in |-> 1, eff |-> <<>>],
+                [a |-> "dependon", in |-> <<1, 2>>], [a |-> "map", f |-> "inc", in |-> 3, eff |-> <<>>]>>
+\* a bind created inside another bind whose own lhs (a var) is SHALLOWER than the outer lhs (a map),
+\* its rhs reading a third input: the inner scope's height is bounded by the outer scope, not by its lhs
+ProgNestShallow == <<[a |-> "var", v |-> I(0)], [a |-> "map", f |-> "id", in |-> 1, eff |-> <<>>],
+                     [a |-> "var", v |-> I(0)], [a |-> "var", v |-> I(0)],
+                     [a |-> "bind", in |-> 2, recipe |-> [r |-> "bind", over |-> 3,
+                                                         inner |-> [r |-> "map", f |-> "add", over |-> 4]]]>>
+\* an rhs node handed out of its bind and observed on its own is invalidated WHILE needed (the bind
+\* re-fires); afterwards every observer goes away and a variable below it is written
+ProgLeakInv == <<[a |-> "var", v |-> I(0)], [a |-> "var", v |-> I(0)], [a |-> "map", f |-> "id", in |-> 2, eff |-> <<>>],
+                 [a |-> "bind", in |-> 1, recipe |-> [r |-> "leak", then |-> [r |-> "map", f |-> "add", over |-> 3]]]>>
+\* a node shared (in different input slots) by a plain map and by a callback-maintained dynamic sum:
+\* consumers come and go in every order, then the shared node changes (K = 3)
+ProgXSumShared == <<[a |-> "var", v |-> I(1)], [a |-> "var", v |-> I(0)], [a |-> "map", f |-> "id", in |-> 2, eff |-> <<>>],
+                    [a |-> "xsum", sel |-> 1, ins |-> <<2, 2>>]>>
+\* the controlling node of a dynamic sum stays observed while the sum itself is not, adds a dependency
+\* meanwhile, and the sum is observed again (K = 3)
+ProgXSumCtl == <<[a |-> "var", v |-> I(0)], [a |-> "const", v |-> I(1)], [a |-> "xsum", sel |-> 1, ins |-> <<2, 2>>]>>
+
 \* compact view of a state for counterexamples
 Alias == [status |-> st.status, panic |-> st.panic, num |-> st.num, chain |-> st.chain,
           def |-> st.def, val |-> st.val, valid |-> st.valid, height |-> st.height,
